@@ -22,8 +22,9 @@ def what_fn(case, obs, verdict):
 
 
 RULE = ("non-trivial: seq cases on a schedule of >=2 parts with at least one Next; conc cases on a schedule of >=2 parts "
-        "with >=2 goroutines and >=2 Next calls; race cases (bare leaves, repeated contended drains) on a schedule with >=1 token; "
-        "distinct = distinct case lines")
+        "with >=2 goroutines and >=2 Next calls; race / srace cases (bare leaves, repeated contended drains; srace = not started, "
+        "the first Next calls race to start it) on a schedule with >=1 token; fact cases (K >= 2 schedules of one factory decoded "
+        "from a configuration) on a schedule of >=2 parts with at least one Next; distinct = distinct case lines")
 
 TRUSTED = [
     "extraction: ExtrOcamlBasic only; OCaml driver ocaml/C02/*.ml + ocaml/common/conv.ml",
@@ -82,11 +83,30 @@ def log_stats(path):
     return st
 
 
+def translate_sync(ctx):
+    """harness/cmd/trC02: synchronisation skeleton of do_at.go / start_sync.go -> coq/Gen/SchedSyncGen.v
+    (own translator binary: nothing shared is edited)."""
+    tr = ctx.build_harness("trC02")
+    if tr is None:
+        return False
+    tmp = os.path.join(ctx.work, "SchedSyncGen.v")
+    rc, out = common.sh([tr, "schedsync", common.REPO, tmp], timeout=300, env=common.goenv())
+    if rc != 0:
+        ctx.broken("translator 'trC02 schedsync' could not re-read do_at.go / start_sync.go "
+                   "(a construct outside the grammar of the leaf's synchronisation skeleton)", out)
+        return False
+    if common.write_if_changed(os.path.join(common.COQ, "Gen", "SchedSyncGen.v"), open(tmp).read()):
+        ctx.log("regenerated Gen/SchedSyncGen.v (changed)")
+    return True
+
+
 def run(ctx):
     cov = {"rule": RULE, "evaluations": 0, "distinct_nontrivial": 0}
+    translate_sync(ctx)
     model_ok = ctx.coq(["Extract/Extract%s.vo" % ctx.prop], what="model+extraction")
     if model_ok:
-        ctx.properties(extra_files=["Properties/C02_nested.v"])
+        ctx.properties(extra_files=["Properties/C02_nested.v", "Properties/C02_leaf.v", "Properties/C02_factory.v",
+                                    "Gen/SchedSync_bridge.v"])
     h = ctx.build_harness("hC02")
     m = ctx.ocaml_model("mC02", "C02_model", "C02") if model_ok else None
     if h and m:
